@@ -97,6 +97,7 @@ PROPS["C18"] = {"units": [
 PROPS["C16"] = {"units": [
     rapid_unit("in-package", "vfilter", "^TestC16Loss$", 1500, 16 * 6000, overlay="full"),
     rapid_unit("e2e", "vnete2e", "^TestC16LossE2E$", 150, 16 * 1000, overlay="plain"),
+    rapid_unit("long-stream", "vfilter", "^TestC16LongStream$", 10, 16 * 40, overlay="full", shrinktime="1s"),
 ]}
 
 PROPS["C02"] = {"units": [
@@ -123,6 +124,7 @@ PROPS["C14"] = {"units": [
     plain_unit("regress", "vfilter", "^TestRegressC14", overlay="full"),
     rapid_unit("delay-filter-free", "vfilter", "^TestC14DelayFilter$", 400, 16 * 3000, overlay="full"),
     rapid_unit("router-delay-e2e", "vnete2e", "^TestC14RouterDelay$", 120, 16 * 800, overlay="plain"),
+    rapid_unit("nested-router-delay", "vnete2e", "^TestC14NestedDelay$", 60, 16 * 500, overlay="plain"),
     rapid_unit("delay-filter-schedules", "vfilter", "^TestC14DelaySchedules$", 300, 16 * 2500, overlay="full"),
 ]}
 
